@@ -432,9 +432,9 @@ func init() {
 	defs := []def{
 		{"C15", base + "oracle: a failed transaction leaves no writes, cross-chain records or events, and removing the failed transactions leaves the block's state digest unchanged. non-trivial = run with succeeding and failing transactions; distinct by chain of block hashes. 12% of the calls are failed by hook H3 after their handler produced all writes, events and cross-chain records", map[string]int{"ff": 12, "import": 8, "chain": 4, "cand": 3, "relayer": 2, "node": 2, "priv": 2, "sig": 1, "burst": 1, "delonly": 4}, []string{"block_mixing_success_and_failure", "tx_failed", "tx_succeeded", "forced_failure_after_handler", "forced_failure_of_delete_only_call"}},
 		{"C32", base + "oracle: per (action, request) the set of distinct witnessed approvers; the action takes effect iff the number of them that are consensus validators in the pre-state reaches ceil(2N/3). non-trivial/distinct as C15", map[string]int{"crossaction": 4, "chain": 6, "cand": 5, "relayer": 4, "node": 3, "import": 1}, []string{"approval_fired_exactly_at_threshold", "approval_by_non_validator"}},
-		{"C33", base + "oracle: after an approval takes effect its request is no longer pending and no later approval round applies it again without a fresh request", map[string]int{"statevals": 4, "chain": 6, "cand": 4, "relayer": 5, "node": 1, "import": 1, "returning": 3}, []string{"approval_took_effect:approvechain", "approval_took_effect:approvecand", "approval_took_effect:approverelayer", "returning_member_approved"}},
-		{"C34", base + "oracle: pool invariants after every transaction (>=4 active, unique keys and indices, blacklisted keys cannot register) and epoch-change rules (view+1, active->consensus, quitting/black dropped, at most one per block)", map[string]int{"cand": 6, "node": 6, "priv": 3, "chain": 1, "import": 1, "relayer": 1, "twoepochs": 4}, []string{"epoch_change", "blacknode_rejected_second_epoch_in_block"}},
-		{"C35", base + "oracle: the registered record of a chain changes only by an approval taking effect, equals the approved request, and updates/removals stem from a request of the registered owner of the current registration", map[string]int{"chain": 10, "import": 2, "cand": 1, "relayer": 1, "node": 1, "priv": 1}, []string{"approval_took_effect:approvechain", "approval_took_effect:approveupd", "approval_took_effect:approvequit"}},
+		{"C33", base + "oracle: after an approval takes effect its request is no longer pending and no later approval round applies it again without a fresh request", map[string]int{"relayerdup": 3, "statevals": 4, "chain": 6, "cand": 4, "relayer": 5, "node": 1, "import": 1, "returning": 3}, []string{"approval_took_effect:approvechain", "approval_took_effect:approvecand", "approval_took_effect:approverelayer", "returning_member_approved"}},
+		{"C34", base + "oracle: pool invariants after every transaction (>=4 active, unique keys and indices, blacklisted keys cannot register) and epoch-change rules (view+1, active->consensus, quitting/black dropped, at most one per block)", map[string]int{"rejoin": 3, "cand": 6, "node": 6, "priv": 3, "chain": 1, "import": 1, "relayer": 1, "twoepochs": 4}, []string{"epoch_change", "blacknode_rejected_second_epoch_in_block"}},
+		{"C35", base + "oracle: the registered record of a chain changes only by an approval taking effect, equals the approved request, and updates/removals stem from a request of the registered owner of the current registration", map[string]int{"updquit": 4, "chain": 10, "import": 2, "cand": 1, "relayer": 1, "node": 1, "priv": 1}, []string{"approval_took_effect:approvechain", "approval_took_effect:approveupd", "approval_took_effect:approvequit"}},
 	}
 	badSteps := func(kinds []int) func(rng *kernel.RNG, steps []kernel.Step) []kernel.Step {
 		return func(rng *kernel.RNG, steps []kernel.Step) []kernel.Step {
@@ -462,7 +462,7 @@ func init() {
 	defs = append(defs,
 		def{"C13", base + "plus Byzantine submissions before block cuts: the next block damaged in one rule (height, parent, timestamp, block root, stale re-submission, sibling of the tip, wrong state root) or valid, re-sealed by an honest quorum, through AddBlock / ExecuteBlock+SubmitBlock / AddHeaders on any node. oracle: a committed block satisfies every acceptance rule evaluated by a reference (naive RFC 6962 block root); an uncommitted submission leaves every observable unchanged; lookups by height/hash return the committed block and its transactions on every replica; the honest block is accepted afterwards", map[string]int{"chain": 2, "cand": 3, "node": 3, "priv": 2, "import": 2, "relayer": 1}, []string{"bad:wrong-parent", "bad:block-root-flipped", "bad:fork-sibling-of-tip", "bad:resubmit-tip", "valid_submission_accepted:valid-control"}},
 		def{"C14", base + "plus Byzantine seals before block cuts: 0 / threshold-1 / threshold signers, duplicated member, foreign keys, signatures over another hash, bookkeepers without signatures, former and future members around hand-overs, and config-change blocks that fail later (wrong state root / block root). Half of the runs are main net with the legacy-height knob at 0 so that the strict rule N-floor((N-1)/3) is in force, the rest legacy N-floor(6N/7). oracle: committed => distinct members of the set in force with valid signatures >= required; set in force unchanged by uncommitted submissions (the honest block sealed by the old set must still be accepted)", map[string]int{"node": 6, "cand": 6, "priv": 4, "chain": 1, "import": 1, "relayer": 0, "strict": 1}, []string{"bad:one-below-threshold", "bad:duplicated-member", "bad:foreign-keys", "validator_set_changed", "valid_submission_accepted:exactly-threshold", "strict_quorum_rule_in_force", "seal_by_former_members"}},
-		def{"C18", base + "oracle: operator-only operations without the witness of the operator address derived from the pre-state consensus set fail with no writes (except a due epoch change); owner/approver/voter operations signed by somebody else than the named address fail with no writes. 8% of steps are signed by a wrong key; privileged ops use 6 signing modes", map[string]int{"priv": 8, "chain": 3, "cand": 3, "relayer": 2, "node": 2, "import": 2, "sig": 1, "forge": 10}, []string{"privileged_without_witness_rejected", "owner_op_without_witness_rejected", "privileged_with_operator_witness"}},
+		def{"C18", base + "oracle: operator-only operations without the witness of the operator address derived from the pre-state consensus set fail with no writes (except a due epoch change); owner/approver/voter operations signed by somebody else than the named address fail with no writes. 8% of steps are signed by a wrong key; privileged ops use 6 signing modes", map[string]int{"candop": 3, "priv": 8, "chain": 3, "cand": 3, "relayer": 2, "node": 2, "import": 2, "sig": 1, "forge": 10}, []string{"privileged_without_witness_rejected", "owner_op_without_witness_rejected", "privileged_with_operator_witness"}},
 		def{"C20", base + "oracle: per (source chain, cross-chain id) at most one acceptance; the done mark appears exactly with the acceptance; replayed rounds (same and altered payload) fail without writes", map[string]int{"ripple": 3, "import": 12, "chain": 3, "priv": 1, "cand": 1, "node": 1, "relayer": 0, "replay": 1}, []string{"import_released", "replay_rejected"}},
 		def{"C21", base + "oracle: an import whose source or destination chain is unregistered or blacklisted in the pre-state fails with no writes; whitelisting restores acceptance", map[string]int{"ripple": 3, "import": 10, "priv": 5, "chain": 4, "cand": 1, "node": 1, "relayer": 0}, []string{"import_rejected_source_gate", "import_rejected_destination_gate", "import_released", "privileged_succeeded:blackchain"}},
 		def{"C22", base + "oracle: each accepted import stores exactly one request under (destination, relay tx hash) whose content is (relay tx hash, source chain, voted message) and whose hash is the single new cross-state leaf; rejected imports add neither", map[string]int{"ripple": 3, "import": 12, "chain": 3, "priv": 1, "cand": 1, "node": 1, "relayer": 0}, []string{"ripple_import_released", "import_released"}},
